@@ -39,6 +39,31 @@ def dtype_to_tensor_type(dtype_like: npt.DTypeLike) -> int:
         raise TypeError(err_msg)
 
 
+def _typed_fields_are_lossy(arr: np.ndarray) -> bool:
+    """Whether the typed (non-raw) ``TensorProto`` fields cannot hold the exact bit patterns of ``arr``.
+
+    - ``float_data`` is filled through Python floats (C doubles), which turns signalling NaNs
+      of ``float32``/``complex64`` into quiet ones;
+    - ``onnx.helper.make_tensor`` converts ``float8e5m2`` with a saturating cast (infinities become
+      the largest finite value, NaN payloads are dropped) and re-rounds ``float8e8m0`` (bit pattern 0 becomes 1).
+    """
+    if arr.size == 0:
+        return False
+    if arr.dtype.type in (np.float32, np.complex64):
+        native = np.ascontiguousarray(arr.astype(arr.dtype.newbyteorder("="), copy=False))
+        bits = native.reshape(-1).view(np.uint32)
+        nan = (bits & 0x7F800000) == 0x7F800000
+        signalling = nan & ((bits & 0x007FFFFF) != 0) & ((bits & 0x00400000) == 0)
+        return bool(signalling.any())
+    if arr.dtype.name == "float8_e5m2":
+        bits = np.ascontiguousarray(arr).reshape(-1).view(np.uint8)
+        # infinities and all NaNs but the canonical one (0x7E / 0xFE)
+        return bool((((bits & 0x7C) == 0x7C) & ((bits & 0x7F) != 0x7E)).any())
+    if arr.dtype.name == "float8_e8m0fnu":
+        return bool((np.ascontiguousarray(arr).reshape(-1).view(np.uint8) == 0).any())
+    return False
+
+
 def from_array(arr: np.ndarray, name: Optional[str] = None) -> TensorProto:
     """Convert the given ``numpy.array`` into an ``onnx.TensorProto``.
 
@@ -46,8 +71,17 @@ def from_array(arr: np.ndarray, name: Optional[str] = None) -> TensorProto:
     initializers), there is a ``name`` parameter.
 
     This function differs from ``onnx.numpy_helper.from_array`` by not
-    using the ``raw_data`` field.
+    using the ``raw_data`` field, except for the rare values which the
+    typed fields cannot represent exactly (see ``_typed_fields_are_lossy``).
     """
+    if _typed_fields_are_lossy(arr):
+        return onnx.helper.make_tensor(
+            name=name or "",
+            data_type=dtype_to_tensor_type(arr.dtype),
+            dims=arr.shape,
+            vals=arr.astype(arr.dtype.newbyteorder("="), copy=False).flatten(),
+            raw=True,
+        )
     cast_to_bytes = False
     if arr.dtype.type in [np.str_, np.object_]:
         cast_to_bytes = True
